@@ -31,7 +31,6 @@ from values import *
 EXPECTED_UNDECIDED_ADTS = {
     'aes::autodetect', 'aes::ni', 'aes::armv8', 'idea::Idea', 'kuznyechik::Kuznyechik',
     'kuznyechik::KuznyechikEnc', 'kuznyechik::KuznyechikDec',
-    'speck_cipher::Speck48_72', 'speck_cipher::Speck48_96', 'speck_cipher::Speck96_96', 'speck_cipher::Speck96_144',
 }
 # pure helper functions treated as uninterpreted functions of their arguments (the identity holds for any such function)
 SUMMARIES = {
@@ -52,6 +51,11 @@ BITLEVEL = {
     # diffusion layer): the instance must be the one KeyInit::new builds (ctor=True); the diffusion layer is an affine
     # involution (carry-free multiplications become byte placements) and SB1/SB3, SB2/SB4 are inverse constant tables
     'aria::Aria': dict(crate='aria', pairs=[], kind=None, words=0, ctor=True),
+    # 24- and 48-bit Speck words live in u32 / u64: rotations leave stale high bits that the next mask removes
+    'speck_cipher::Speck48_72': dict(crate='speck_cipher', pairs=[], kind=None, words=0),
+    'speck_cipher::Speck48_96': dict(crate='speck_cipher', pairs=[], kind=None, words=0),
+    'speck_cipher::Speck96_96': dict(crate='speck_cipher', pairs=[], kind=None, words=0),
+    'speck_cipher::Speck96_144': dict(crate='speck_cipher', pairs=[], kind=None, words=0),
 }
 
 
